@@ -7,6 +7,7 @@
 #include "uci_session.h"
 
 #include <set>
+#include <sys/stat.h>
 #include <unordered_map>
 
 using namespace engine;
@@ -377,6 +378,86 @@ static void list_limits()
                 sub.states++;
                 if (sub.states == 3) R.sample(spec_json(s));
             }
+    }
+    sub.exhaustive = true;
+done:
+    sub.transitions = sub.states;
+    R.subspaces.push_back(sub);
+}
+
+// C05: opening book configured. `go` must still be answered by exactly one legal bestmove, whether the book
+// contains the position (one record, two records) or not, for both sampling policies and every kind of limit.
+static std::string g_book_dir, g_book_path;   // book files stay on disk (a few bytes each) so that a recorded session replays
+static void write_book(const std::vector<std::pair<uint64_t, std::pair<ref::Mv, int>>>& recs)
+{
+    FILE* f = fopen(g_book_path.c_str(), "wb");
+    if (!f) exit(2);
+    for (auto& r : recs)
+    {
+        unsigned char b[16] = {0};
+        for (int i = 0; i < 8; ++i) b[i] = (unsigned char)(r.first >> (56 - 8 * i));
+        unsigned mv = unsigned(r.second.first.to % 8) | unsigned(r.second.first.to / 8) << 3 | unsigned(r.second.first.from % 8) << 6 | unsigned(r.second.first.from / 8) << 9;
+        b[8] = (unsigned char)(mv >> 8);
+        b[9] = (unsigned char)(mv & 0xFF);
+        b[10] = (unsigned char)(r.second.second >> 8);
+        b[11] = (unsigned char)(r.second.second & 0xFF);
+        fwrite(b, 1, 16, f);
+    }
+    fclose(f);
+}
+
+static void list_book()
+{
+    mc::Subspace sub;
+    sub.name = "opening book configured";
+    sub.bound = "seed positions x book {one record for the position, two records, a record for another key only} x Polyglot Sample {random, best} x go {depth 1, depth 3, movetime 1, clock, default}";
+    for (auto& sp : SEEDS)
+    {
+        if (sp.cls == 2) continue;
+        ref::Pos root;
+        if (!ref::parse_fen(sp.fen, root)) continue;
+        std::vector<ref::Mv> lm, plain;
+        ref::gen_legal(root, lm);
+        for (auto& m : lm)
+            if (!(m.flags & (ref::F_CASTLE_K | ref::F_CASTLE_Q)) && !m.promo) plain.push_back(m);
+        if (plain.empty()) continue;
+        uint64_t key = PolyglotBook::hash(Position(std::string(sp.fen)));
+        for (int book = 0; book < 3; ++book)
+            for (const char* policy : {"random", "best"})
+                for (const char* go : {"go depth 1", "go depth 3", "go movetime 1", "go wtime 300 btime 300", "go"})
+                {
+                    if (!mine()) continue;
+                    if (R.out_of_time()) goto done;
+                    std::vector<std::pair<uint64_t, std::pair<ref::Mv, int>>> recs;
+                    if (book == 0) recs.push_back({key, {plain.front(), 1}});
+                    if (book == 1)
+                    {
+                        // records must be sorted by key; equal keys here
+                        recs.push_back({key, {plain.front(), 1}});
+                        recs.push_back({key, {plain.back(), 3}});
+                    }
+                    if (book == 2) recs.push_back({key ^ 1, {plain.front(), 1}});
+                    g_book_path = g_book_dir + "/" + sp.name + "-" + std::to_string(book) + ".bin";
+                    write_book(recs);
+                    Session s = base(sp.fen, go, std::string("book:") + (book == 0 ? "hit1" : book == 1 ? "hit2" : "miss") + ":" + policy + ":" + sp.name);
+                    s.lines.insert(s.lines.begin(), std::string("setoption name Polyglot Sample value ") + policy);
+                    s.lines.insert(s.lines.begin(), "setoption name Polyglot Book value " + g_book_path);
+                    bool timed = std::string(go).find("time") != std::string::npos || std::string(go) == "go";
+                    s.spec.clock_step_ms = timed ? 25 : 0;
+                    s.spec.horizon = 20000000;
+                    if (std::string(go) == "go") s.finite = true;
+                    sess::Outcome o = run_and_check(s);
+                    sess::Parsed p = sess::parse_output(o.output, false);
+                    if (book != 2)
+                    {
+                        R.count("book_hit_sessions");
+                        if (p.bestmoves.size() == 1 && (p.bestmoves[0] == ref::uci(plain.front()) || (book == 1 && p.bestmoves[0] == ref::uci(plain.back())))) R.count("book_move_played");
+                    }
+                    else
+                        R.count("book_miss_sessions");
+                    sub.states++;
+                    if (sub.states == 2) R.sample(spec_json(s));
+                }
     }
     sub.exhaustive = true;
 done:
@@ -1248,7 +1329,10 @@ int main(int argc, char** argv)
         R.subspaces.push_back(sub);
         return R.write(out) ? 0 : 2;
     }
-    if (list == "limits") list_limits();
+    g_book_dir = (out.find('/') == std::string::npos ? std::string(".") : out.substr(0, out.rfind('/'))) + "/books";
+    mkdir(g_book_dir.c_str(), 0755);
+    if (list == "book") list_book();
+    else if (list == "limits") list_limits();
     else if (list == "stops") list_stops();
     else if (list == "history") list_history();
     else if (list == "poison") list_poison();
